@@ -8,6 +8,7 @@ RULE = ("the histories of the MC_Parser instance names (element names Foo / foo 
         "one-pass demotion has no nondeterministic choice (HashOrder = FALSE: ToOptionalChoices is a singleton, checked by the "
         "invariant Deterministic); on the real code every history is parsed and rendered (both presets, both sorts) repeatedly in "
         "one thread, in several threads and in fresh processes and all outputs must be byte-identical. "
+        "In addition seeded random sessions over a pool of colliding names with attributes, text and up to three documents. "
         "non-trivial = histories in which some element closes with at least two children to demote")
 
 
@@ -31,21 +32,22 @@ def run(tier, rep):
         rep.add(states=r.distinct, transitions=r.generated)
         mm = os.path.join(c.OUT, "cases", "C05-%s.mm.ndjson" % inst)
         dig = os.path.join(c.OUT, "cases", "C05-%s.digests" % inst)
+        nrandom = (300 if tier == "quick" else 5000) if inst == "names" else 0
         s = c.harness(["c05-repeat", "--cases", cases, "--reps", reps, "--threads", threads, "--stride", stride,
-                       "--mismatches", mm, "--digests", dig + ".0"], timeout=3000)
+                       "--random", nrandom, "--seed", c.seed(), "--mismatches", mm, "--digests", dig + ".0"], timeout=3000)
         for m in c.read_ndjson(mm):
             rep.violation(m, "%s of %s renders differently: %s" % (m["how"], " + ".join(pc.doc_texts(m)), first_diff(m["first"], m["other"])))
         # fresh processes: the digests of all rendered outputs must agree
         base = open(dig + ".0").read()
         for p in range(1, procs + 1):
             c.harness(["c05-repeat", "--cases", cases, "--reps", 0, "--threads", 0, "--stride", stride,
-                       "--digests", dig + ".%d" % p], timeout=3000)
+                       "--random", nrandom, "--seed", c.seed(), "--digests", dig + ".%d" % p], timeout=3000)
             other = open(dig + ".%d" % p).read()
             if other != base:
                 idx = next(i for i, (a, b) in enumerate(zip(base.split("\n"), other.split("\n"))) if a != b)
-                rep.violation({"kind": "repeat", "class": "c05", "how": "fresh process", "case_index": idx * stride, "instance": inst,
-                               "docs": case_docs(cases, idx * stride)},
-                              "a fresh process renders case %d of instance %s differently" % (idx * stride, inst))
+                rep.violation({"kind": "repeat", "class": "c05", "how": "fresh process", "digest_index": idx, "instance": inst,
+                               "seed": c.seed(), "random": nrandom, "stride": stride},
+                              "a fresh process renders input %d of instance %s (cases then random sessions) differently" % (idx, inst))
             os.remove(dig + ".%d" % p)
         total += s["cases"]
         rep.add(evaluations=s["runs"] + s["cases"] * procs, distinct_nontrivial=pc.count_cases(cases, two_demotions) // stride,
